@@ -53,7 +53,7 @@ func (m *c11) Key() string {
 	for i, l := range ls {
 		s[i] = fmt.Sprint(l)
 	}
-	return strings.Join(s, ",")
+	return strings.Join(s, ",") + seqmc.Scalars(m.b)
 }
 
 func (m *c11) Expand() bool { return len(m.nodeLens()) <= m.maxSegs }
